@@ -325,6 +325,12 @@ def transaction_rules(R, pfx):
                 if 0 not in tb.closure(PL(bt, i)):
                     ok = False
                     R.viol(pfx + ".tx.signed", "param-dropped:%s" % f, "bytes_to_sign drops its `%s` parameter" % f, bt, bt.lines[0])
+                else:
+                    from flow import whole_value_reaches
+                    whole, part = whole_value_reaches(bt, PL(bt, i))
+                    if not whole:
+                        ok = False
+                        R.viol(pfx + ".tx.signed", "param-partial:%s" % f, "bytes_to_sign covers only part of `%s` (%s), not the whole value" % (f, ", ".join("." + x for x in sorted(part)) or "a projection"), bt, bt.lines[0])
         unsigned = sorted(set(fields) - set(covered))
         if unsigned != ["signature"]:
             ok = False
